@@ -48,12 +48,70 @@ def rename_tree(tree):
     handle(tree.body)
     return tree
 
-MODES = ('unparse', 'rename', 'shift')
+MODES = ('unparse', 'rename', 'shift', 'swapif', 'flipcmp', 'kwargs')
+
+
+class SwapIf(ast.NodeTransformer):
+    """if c: A else: B  ->  if not c: B else: A   (plain two-armed ifs only, no elif chains)"""
+    def visit_If(self, n):
+        self.generic_visit(n)
+        if n.orelse and not (len(n.orelse) == 1 and isinstance(n.orelse[0], ast.If)) and \
+                not (len(n.body) == 1 and isinstance(n.body[0], ast.If)):
+            t = n.test
+            nt = t.operand if isinstance(t, ast.UnaryOp) and isinstance(t.op, ast.Not) else ast.UnaryOp(op=ast.Not(), operand=t)
+            return ast.copy_location(ast.If(test=nt, body=n.orelse, orelse=n.body), n)
+        return n
+
+
+class FlipCmp(ast.NodeTransformer):
+    """a < b -> b > a  (single ordering comparisons between side-effect free operands)"""
+    FL = {ast.Lt: ast.Gt, ast.Gt: ast.Lt, ast.LtE: ast.GtE, ast.GtE: ast.LtE}
+
+    def visit_Compare(self, n):
+        self.generic_visit(n)
+        if len(n.ops) == 1 and type(n.ops[0]) in self.FL and not any(isinstance(x, ast.Call) for x in ast.walk(n)):
+            return ast.copy_location(ast.Compare(left=n.comparators[0], ops=[self.FL[type(n.ops[0])]()], comparators=[n.left]), n)
+        return n
+
+
+def kwargs_tree(tree, sigs):
+    """f(a, b) -> f(x=a, y=b) for calls by bare name to module-level functions of the package with a known signature"""
+    class K(ast.NodeTransformer):
+        def visit_Call(self, n):
+            self.generic_visit(n)
+            if isinstance(n.func, ast.Name) and n.func.id in sigs and n.args and not any(isinstance(a, ast.Starred) for a in n.args) \
+                    and not any(k.arg is None for k in n.keywords):
+                ps = sigs[n.func.id]
+                if len(n.args) <= len(ps) and len(n.args) >= 2:
+                    keep = n.args[:1]
+                    kws = [ast.keyword(arg=p_, value=a) for p_, a in zip(ps[1:len(n.args)], n.args[1:])]
+                    if not ({k.arg for k in kws} & {k.arg for k in n.keywords}):
+                        n.args = keep
+                        n.keywords = kws + n.keywords
+            return n
+    return K().visit(tree)
+
+
+def signatures(root):
+    """name -> positional parameter names, for module-level functions whose name is unique in the package"""
+    seen = {}
+    for p in pathlib.Path(root, 'gnpy').rglob('*.py'):
+        try:
+            t = ast.parse(p.read_text())
+        except SyntaxError:
+            continue
+        for n in t.body:
+            if isinstance(n, ast.FunctionDef) and not n.args.vararg and not n.args.posonlyargs:
+                seen.setdefault(n.name, []).append([a.arg for a in n.args.args])
+    builtin = set(dir(builtins))
+    return {k: v[0] for k, v in seen.items() if len(v) == 1 and k not in builtin}
+
 
 
 def make(mode, dst, root=None):
     root = root or os.environ.get('GSCAN_REPO', '/repo')
     shutil.copytree(os.path.join(root, 'gnpy'), os.path.join(dst, 'gnpy'), dirs_exist_ok=True)
+    sigs = signatures(root) if mode == 'kwargs' else {}
     for p in pathlib.Path(dst, 'gnpy').rglob('*.py'):
         src = p.read_text()
         if mode == 'unparse':
@@ -62,6 +120,12 @@ def make(mode, dst, root=None):
             new = ast.unparse(rename_tree(ast.parse(src))) + '\n'
         elif mode == 'shift':
             new = '# shifted\n' * 37 + src
+        elif mode == 'swapif':
+            new = ast.unparse(ast.fix_missing_locations(SwapIf().visit(ast.parse(src)))) + '\n'
+        elif mode == 'flipcmp':
+            new = ast.unparse(ast.fix_missing_locations(FlipCmp().visit(ast.parse(src)))) + '\n'
+        elif mode == 'kwargs':
+            new = ast.unparse(ast.fix_missing_locations(kwargs_tree(ast.parse(src), sigs))) + '\n'
         else:
             raise SystemExit('mode?')
         compile(new, str(p), 'exec')
